@@ -69,7 +69,8 @@ async def query_request(request: Request) -> JSONResponse:
                         "sqlState": e.sqlstate,
                     },
                     "code": code,
-                    "message": e.msg,
+                    # the client prefixes the message with the error code and sql state
+                    "message": e.raw_msg,
                     "success": False,
                 }
             )
